@@ -228,6 +228,13 @@ class MatchScenario(NetScenario):
             # the application loses interest in a request (held back or in flight): the others must not notice
             for r in live:
                 out.append(("withdraw:%s" % r.name, 1))
+            # ... and does so in the very loop pass in which a Reset / a transport error for it is read (the application's step
+            # comes first, its future's own clean-up callback has not run yet when the error is dispatched)
+            for r in live:
+                if r.mtype == "CON" and r.mid is not None and not r.acked and r.first_tx is not None:
+                    out.append(("cancel+rst:%s" % r.name, 1))
+                if r.first_tx is not None:
+                    out.append(("cancel+icmp:%s" % r.name, 1))
         if done and "replay" not in st.faults_used:
             out.append(("replay:%s" % done[0].name, 1))
         # a Reset for the message of a request that is over already (answered by a separate response, or withdrawn) while its
@@ -302,6 +309,28 @@ class MatchScenario(NetScenario):
             w.inject(SRV[r.srv], CLI, rc.encode((rc.RST, 0, r.mid, b"", [], b"")))
             r.acked = True
             self.expect_same(st, before, label)
+        elif kind in ("cancel+rst", "cancel+icmp"):
+            r = byname[parts[1]]
+            st.faults_used.add("withdraw")
+            r.withdrawn = True
+            concerned = [o for o in st.reqs if o.srv == r.srv and o is not r and self.outstanding(o) and o.first_tx is not None]
+            w.loop.call_soon(r.obj.response.cancel)
+            if kind == "cancel+rst":
+                w.inject(SRV[r.srv], CLI, rc.encode((rc.RST, 0, r.mid, b"", [], b"")))
+                r.acked = True
+                for o in st.reqs:
+                    if o is not r and before[o.name] != self.snap1(o):
+                        st.violations.append(Violation("withdrawal-changed-other-request", before[o.name], self.snap1(o),
+                                                       "tokenmanager.py:request", {}, key="cancel+rst-other"))
+            else:
+                st.cli.receive_error(SRV[r.srv], errno.ECONNREFUSED)
+                w.loop.settle()
+                r.acked = True
+                for o in concerned:
+                    o.acked = True
+                    if not o.obj.response.done():
+                        st.violations.append(Violation("icmp-does-not-complete", "request to that remote failed", "pending",
+                                                       "tokenmanager.py:dispatch_error", {}, key="cancel+icmp"))
         elif kind == "withdraw":
             r = byname[parts[1]]
             st.faults_used.add("withdraw")
